@@ -4,6 +4,6 @@
    No Extract Constant / other Extract Inductive directives.
    Run from /verif/ocaml/gen (files land in the current directory). *)
 From Coq Require Import ExtrOcamlBasic.
-From SC Require InstMgr P21Lex.
+From SC Require InstMgr P21Lex P21Syntax.
 Extraction Language OCaml.
-Separate Extraction InstMgr P21Lex.
+Separate Extraction InstMgr P21Lex P21Syntax.
